@@ -234,7 +234,7 @@ def gen_truth(rng):
                        'steps_decreasing': (step_kind is not None
                                             and rng.random() < 0.4),
                        'integrated': 'yes' if para else rng.choice(
-                           ['yes', 'yes', 'no', 'not_converged'])})
+                           ['yes', 'yes', 'no', 'not_converged', 'mixed'])})
     for batch in batches:
         resps = []
         for lay in layout:
@@ -268,6 +268,12 @@ def gen_truth(rng):
                             integ = (rng.choice([0.0, integ[0]]), 0.0)
                     elif lay['integrated'] == 'not_converged':
                         integ = 'not_converged'
+                    elif lay['integrated'] == 'mixed':
+                        # some steps converged, others not yet (as in an
+                        # early edition)
+                        integ = 'not_converged'
+                        if snum == 0 or rng.random() < 0.5:
+                            integ = (uniq.score(False), uniq.sigma())
                     steps.append({'lo': lay['bounds'][snum],
                                   'hi': lay['bounds'][snum + 1],
                                   'scores': [uniq.score() for _ in
